@@ -75,6 +75,9 @@ type kase struct {
 	// Target state of the non-source shards during evacuation: rw, ro, fail.
 	Targets map[int]string `json:"targets"`
 	FH      bool           `json:"fault_handler"`
+	// IgnoreErrors is Evacuate's ignoreErrors flag (documented for READ errors
+	// of the source; put failures must still fail or go to the fault handler).
+	IgnoreErrors bool `json:"ignore_errors"`
 }
 
 func (k kase) String() string {
@@ -86,7 +89,7 @@ func (k kase) String() string {
 	for _, p := range k.Puts {
 		fmt.Fprintf(&sb, "  put o%d (%s) failing shards %v\n", p.ID, k.Objs[p.ID].Kind, p.Fail)
 	}
-	fmt.Fprintf(&sb, "  evacuate sources=%v (degraded-read-only: %v) targets=%v faultHandler=%v\n", k.Sources, k.DegSources, k.Targets, k.FH)
+	fmt.Fprintf(&sb, "  evacuate sources=%v (degraded-read-only: %v) targets=%v faultHandler=%v ignoreErrors=%v\n", k.Sources, k.DegSources, k.Targets, k.FH, k.IgnoreErrors)
 	return sb.String()
 }
 
@@ -191,10 +194,17 @@ func gen(t *rapid.T) kase {
 	if rapid.IntRange(0, 3).Draw(t, "degsource") == 0 {
 		k.DegSources = []int{rapid.SampledFrom(k.Sources).Draw(t, "degsrc")}
 	}
+	k.IgnoreErrors = rapid.Bool().Draw(t, "ignoreerrors")
+	// a quarter of the cases: EVERY target refuses puts
+	allRefuse := rapid.IntRange(0, 3).Draw(t, "alltargetsrefuse") == 0
 	k.Targets = map[int]string{}
 	for s := 0; s < k.N; s++ {
 		if !contains(k.Sources, s) {
-			k.Targets[s] = rapid.SampledFrom([]string{"rw", "rw", "rw", "ro", "fail"}).Draw(t, "target")
+			if allRefuse {
+				k.Targets[s] = rapid.SampledFrom([]string{"ro", "fail"}).Draw(t, "target")
+			} else {
+				k.Targets[s] = rapid.SampledFrom([]string{"rw", "rw", "rw", "ro", "fail"}).Draw(t, "target")
+			}
 		}
 	}
 	return k
@@ -354,7 +364,20 @@ func run(t *rapid.T, rec *ev.Recorder, k kase) (labels []string, nontrivial bool
 	if k.FH {
 		fh = func(a oid.Address, o *object.Object) error { handed[a] = o; return nil }
 	}
-	n, evErr := e.E.Evacuate(ctx, srcIDs, false, fh)
+	allRefuse := len(k.Targets) > 0
+	for _, st := range k.Targets {
+		allRefuse = allRefuse && st != "rw"
+	}
+	if k.IgnoreErrors {
+		lab["ignoreErrors=true"] = true
+	}
+	if allRefuse {
+		lab["allTargetsRefuse"] = true
+	}
+	if k.IgnoreErrors && allRefuse && !k.FH {
+		lab["ignoreErrors=true&allTargetsRefuse"] = true
+	}
+	n, evErr := e.E.Evacuate(ctx, srcIDs, k.IgnoreErrors, fh)
 	checkSources := func(when string) {
 		for _, d := range srcDirs {
 			tr, err := snap.Tree(d)
